@@ -4,7 +4,7 @@ xor of buffers, the `while (count >= 16)` loop, the counter increment.
 -/
 import Bee2V.C01.Model.Modes
 import Bee2V.C01.Lemmas.Bytes
-namespace Bee2V.C01
+namespace Bee2V.C01.Stream
 
 /-! ### xor of buffers -/
 
@@ -721,6 +721,29 @@ theorem bdeLoop_roundtrip (F G : Bytes → Bytes → Bytes) (key : Bytes)
   refine ⟨by simp only [List.length_append]; omega, ?_, h3.symm⟩
   rw [h2, h1]
 
+/-- the state invariant of CTR is kept by `beltCTRStepE` -/
+theorem ctrStepE_inv (C : Cipher) (hlen : ∀ k x, x.length = 16 → (C.enc k x).length = 16)
+    (st : CtrSt) (hr : st.reserved ≤ 16) (hb : st.block.length = 16) (hc : st.ctr.length = 16) (buf : Bytes) :
+    (ctrStepE C st buf).1.reserved ≤ 16 ∧ (ctrStepE C st buf).1.block.length = 16 ∧
+    (ctrStepE C st buf).1.ctr.length = 16 := by
+  by_cases h : st.reserved ≠ 0 ∧ st.reserved ≥ buf.length
+  · rw [ctrStepE_res C st buf h]
+    exact ⟨by simp only []; omega, hb, hc⟩
+  · rw [ctrStepE_main C st buf h]
+    have hL := fullBlocks_lengths 16 (by omega) (ctrBody C st.key) (fun s => s.1.length = 16 ∧ s.2.length = 16)
+      (fun s b hs hb => by
+        have h1 := length_incBlock s.1 hs.1
+        have h2 := hlen st.key _ h1
+        exact ⟨⟨h1, h2⟩, by simp only [ctrBody, length_xorb, h2]; omega⟩)
+      (buf.drop st.reserved).length (buf.drop st.reserved) (st.ctr, st.block) (Nat.le_refl _) ⟨hc, hb⟩
+    obtain ⟨⟨i1, i2⟩, _, _, _⟩ := hL
+    unfold ctrMain
+    simp only []
+    split
+    · have h1 := length_incBlock _ i1
+      exact ⟨by simp only []; omega, hlen _ _ h1, h1⟩
+    · exact ⟨by simp only []; omega, i2, i1⟩
+
 /-! ### CTR: the key stream -/
 
 theorem ctrMain_nil (C : Cipher) (st : CtrSt) : (ctrMain C st []).2 = [] := by
@@ -781,4 +804,4 @@ theorem ctrMain_block (C : Cipher) (hlen : ∀ k x, x.length = 16 → (C.enc k x
       have : ((leNat st.ctr + 1) % 2 ^ 128 + i + 1) % 2 ^ 128 = (leNat st.ctr + (i + 1) + 1) % 2 ^ 128 := by omega
       rw [this]
 
-end Bee2V.C01
+end Bee2V.C01.Stream
